@@ -54,7 +54,7 @@ ASSUMPTIONS = [
     'root-relative (/x), protocol-relative and scheme-qualified URLs are external and not followed',
 ]
 MIN_NONTRIVIAL = {'quick': 300, 'thorough': 8000}
-N_CASES = {'quick': 960, 'thorough': 24000}
+N_CASES = {'quick': 2400, 'thorough': 24000}
 NSHARDS = 16
 
 F_SINGLE = 'C16-dup-id-single-page-entry'
